@@ -37,7 +37,7 @@ KqDirEntry == NOTE_DELETE + NOTE_RENAME          \* a subdirectory entry of a wa
 (*   ws     : Ideal watcher state used for the expected events             *)
 (*   flags  : context for cause signatures (known deviations)              *)
 K0 == [on |-> FALSE, bagmode |-> FALSE, fresh |-> TRUE, failed |-> {}, pend |-> EmptyFn, opt |-> EmptyFn, evc |-> FALSE, errc |-> FALSE, user |-> EmptyFn, ent |-> EmptyFn, flags |-> {}, seq |-> 0, closed |-> FALSE, bad |-> <<>>, tags |-> {}, kfault |-> FALSE, nunw |-> 0]
-G0 == [id |-> "", start |-> 0, infra |-> <<>>, events |-> 0]
+G0 == [id |-> "", start |-> 0, infra |-> <<>>, events |-> 0, lastobs |-> [nfd |-> -1, npath |-> -1, nbyuser |-> -1, nseen |-> -1], drift |-> <<>>]
 
 Init == l = 1 /\ K = K0 /\ g = G0 /\ TLCSet(1, 1) /\ TLCSet(3, EmptyFn)
 
@@ -171,9 +171,14 @@ BurstAtomic(k0, ln) ==
             reused == \E e \in E : HasBit(NoteOf(ns, EN(u, e.n)), NOTE_RENAME) /\ ~HasBit(NoteOf(ns, EN(u, e.n)), NOTE_DELETE)
                                    /\ (\E f \in F : f.n = e.n)
         IN [k3 EXCEPT !.ent[u] = F, !.flags = @ \cup (IF reused THEN {"renamed_name_reused"} ELSE {})]
-      OneFile(k, u) == IF KqueueOpOf(NoteOf(ns, u)) # 0 THEN Expect(k, u, KqueueOpOf(NoteOf(ns, u))) ELSE k
+      \* a watched single file: one event with the union; if it was removed and its name is in use again the watch goes on
+      \* with the new file after Remove and Create (the repository's recorded kqueue expectation overwrite-watched-file)
+      Back(u) == HasBit(NoteOf(ns, u), NOTE_DELETE) /\ \E f \in FinalOf(ln, Parent(k0.user[u].real)) : f.n = Base(k0.user[u].real)
+      OneFile(k, u) == IF KqueueOpOf(NoteOf(ns, u)) = 0 THEN k
+                       ELSE LET k1 == Expect(k, u, KqueueOpOf(NoteOf(ns, u))) IN
+                            IF Back(u) THEN [Expect(k1, u, OpCreate) EXCEPT !.flags = @ \cup {"file_watch_replaced"}] ELSE k1
       k9 == ForAll(ForAll(KTag(k0, "atomic_burst"), dirs, OneDir), files, OneFile)
-      ended == {u \in DOMAIN k0.user : Gone(u)}
+      ended == {u \in DOMAIN k0.user : Gone(u) /\ (u \in dirs \/ ~Back(u))}
   IN [k9 EXCEPT !.fresh = FALSE, !.user = Without(@, ended), !.ent = Without(@, ended \cap DOMAIN k9.ent)]
 
 \* (several watches on one directory - the same directory added under two spellings - report the same
@@ -191,7 +196,7 @@ Reset == /\ IsKind("reset") /\ K' = K0 /\ g' = [G0 EXCEPT !.id = Line.id, !.star
 
 End == /\ IsKind("end")
        /\ LET mine == [viol |-> [b \in 1..Len(K.bad) |-> [id |-> Line.id, w |-> "w1", props |-> K.bad[b].props, cause |-> K.bad[b].cause]],
-                       tags |-> K.tags, fog |-> FALSE, records |-> K.seq, events |-> g.events, infra |-> g.infra, lines |-> l - g.start + 1]
+                       tags |-> K.tags, fog |-> FALSE, records |-> K.seq, events |-> g.events, infra |-> g.infra, lines |-> l - g.start + 1, drift |-> g.drift]
               cur == TLCGet(3)
           IN TLCSet(3, IF Line.id \in DOMAIN cur /\ Len(cur[Line.id].viol) <= Len(mine.viol) THEN cur ELSE (Line.id :> mine) @@ cur)
        /\ K' = K0 /\ g' = G0 /\ Next1
@@ -330,15 +335,25 @@ ObsK(k, o) ==
 Silent(k, o) == IF k.kfault /\ o.kfaultleft = 0 THEN KTag([k EXCEPT !.kfault = FALSE, !.nunw = @ + 1], "entry_unwatchable") ELSE k
 Obs == /\ IsKind("obs")
        /\ K' = IF K.on THEN ObsK(Silent(K, Line), Line) ELSE K
-       /\ g' = IF ~Line.q THEN Infra("not quiescent at obs") ELSE g
+       /\ g' = [(IF ~Line.q THEN Infra("not quiescent at obs") ELSE g) EXCEPT
+                   !.lastobs = [nfd |-> Len(Line.fds), npath |-> Line.npath, nbyuser |-> Line.nbyuser, nseen |-> Line.nseen]]
        /\ Next1
+
+\* spec -> code: what the bounded model (KqueueTables, via MC_KqGen) predicted for the observation just made.  A difference
+\* means the model no longer describes the code: MODEL-DRIFT, not a verdict on a property.
+Kmodel == /\ IsKind("kmodel")
+          /\ g' = LET o == g.lastobs
+                      m == [nfd |-> Line.nfd, npath |-> Line.npath, nbyuser |-> Line.nbyuser, nseen |-> Line.nseen] IN
+                  IF o = m THEN g ELSE [g EXCEPT !.drift = Append(@, [model |-> m, observed |-> o])]
+          /\ K' = K /\ Next1
+Hold == /\ IsKind("hold") /\ K' = K /\ g' = g /\ Next1
 
 Kfault == /\ IsKind("kfault") /\ K' = [K EXCEPT !.kfault = TRUE] /\ g' = g /\ Next1
 
 Crash == /\ IsKind("crash") /\ K' = KBad(K, {"C17", "C18"}, "crash:" \o Line.cls) /\ g' = g /\ Next1
 Other == /\ l <= Len(Trace) /\ Line.k \in {"bad"} /\ K' = K /\ g' = Infra("bad step") /\ Next1
 
-Next == (Reset \/ End \/ New \/ Fs \/ Call \/ Recv \/ Drain \/ Obs \/ Kfault \/ Crash \/ Other)
+Next == (Reset \/ End \/ New \/ Fs \/ Call \/ Recv \/ Drain \/ Obs \/ Kmodel \/ Hold \/ Kfault \/ Crash \/ Other)
         /\ TLCSet(1, IF TLCGet(1) > l' THEN TLCGet(1) ELSE l')
 Spec == Init /\ [][Next]_vars
 
